@@ -187,8 +187,9 @@ def check(ctx, otree, leaves0, odsl, cfg):  # noqa: C901, PLR0912, PLR0915
 def run_shard(ctx):
     preds = ['none', 'tuple_or_none']
     modes = None
+    nss = ['', 'ns'] if ctx.tier == 'quick' else None
     e1.drive(ctx, ctx.tier, lambda tree, leaves, dsl, cfg: check(ctx, tree, leaves, dsl, cfg),
-             profile='medium', cfgs=e1.configs(ctx.tier, predicates=preds, modes=modes))
+             profile='medium', cfgs=e1.configs(ctx.tier, predicates=preds, modes=modes, namespaces=nss))
 
 
 def replay(case, ctx):
